@@ -259,6 +259,18 @@ pub fn run(tier: Tier) -> i32 {
         }
     });
     stats.merge(s);
+    // 1b'. the same stalls with a very large / unlimited number of concurrent transactions configured
+    let s = ctx.shards("stalls-max-transactions", OPS.len() as u64 * 3, |i, _seed, st| {
+        let op = OPS[(i / 3) as usize];
+        let max = [7usize, 100_000, usize::MAX][(i % 3) as usize];
+        let cfg = CfgSpec { max, ..cfg0.clone() };
+        for (sc, nt) in stall_scenarios_full(op, &cfg, None, None).iter() {
+            st.case(*nt, fnv(&serde_json::to_vec(sc).unwrap()));
+            st.class(&format!("stall-with-max-transactions={}", if max == usize::MAX { "usize::MAX".to_string() } else { max.to_string() }));
+            ctx.record(check_returns(sc), st);
+        }
+    });
+    stats.merge(s);
     // 1c. attempts that last a fractional number of seconds: the packet in front of the stall is delayed by 1 .. 2500 ms, so the
     //     failed attempt ends 60.001 / 2.25 / 3.5 ... s after it began (on a paused clock every other duration is a whole second)
     let s = ctx.shards("stalls-subsecond", OPS.len() as u64, |i, _seed, st| {
@@ -336,7 +348,8 @@ pub fn run(tier: Tier) -> i32 {
             prop_oneof![Just(978u64), Just(826), Just(752), Just(0), Just(9999)],
             prop_oneof![Just(0u64), Just(999_999_999_999), 0u64..=999_999_999_999],
             any::<u8>(),
-            0usize..=3,
+            // "no limit" style values included: no configuration value may enter a time-out computation unbounded
+            prop_oneof![4 => 0usize..=3, 1 => Just(7usize), 1 => Just(100_000usize), 1 => Just(u32::MAX as usize), 1 => Just(u32::MAX as usize + 1), 1 => Just(usize::MAX)],
         )
             .prop_map(|(terminal_id, password, currency, amount, rct, max)| CfgSpec { terminal_id, serial: "17FD1E3C".into(), password, currency, amount, rct, max });
         let strat = (cfg, 0usize..6, any::<u16>(), any::<bool>(), 0usize..INTERMEDIATES.len(), proptest::option::weighted(0.3, 1u64..=9999));
@@ -353,7 +366,7 @@ pub fn run(tier: Tier) -> i32 {
     stats.exhaustive_parts = vec!["every packet position (ack and each reply, header-only variant, once / on every attempt) of every exchange in the fault-free transcript of each of the 6 operations, plus stalls in the handshake of a forced reconnect and in connect()".into(), "read_card_timeout 0..=255 x {plain, silent terminal, answer at t+1}".into()];
     ctx.finish(
         stats,
-        "the real Feig client against the simulated terminal on tokio's paused clock. Positions come from a fault-free dry run of each operation (handshake included); one stall {silence, packet header then silence} x {once, on every attempt} per position, also after the terminal left the beginning of a late packet on the idle connection between two calls, also behind a packet delayed by 1 / 250 / 999 / 1001 / 2500 ms (attempts of fractional length), also with a dangling pre-authorisation in the terminal (stalls inside the clean-up's reversal exchange), each with the terminal's intermediate status carrying time-out byte 00 / absent / 99 / 02 / status ff; stalls in the handshake of a forced reconnect; connect() never completing / refused; read_card_timeout 0..=255 exhaustively incl. a terminal answering t+1 s after its ack; proptest-sampled configurations (password, currency, amount, terminal id, max transactions) x stalls. Oracle: under a one-virtual-day watchdog the call returns, without panic, within S(op)*20*3*(T+2) virtual seconds, and a timeout inside the configured window does not abandon the exchange. non-trivial = stall inside a handshake or at a reply position >= 1, or read_card_timeout in {0,253,254,255}; distinct by scenario",
+        "the real Feig client against the simulated terminal on tokio's paused clock. Positions come from a fault-free dry run of each operation (handshake included); one stall {silence, packet header then silence} x {once, on every attempt} per position, also after the terminal left the beginning of a late packet on the idle connection between two calls, also behind a packet delayed by 1 / 250 / 999 / 1001 / 2500 ms (attempts of fractional length), also with a dangling pre-authorisation in the terminal (stalls inside the clean-up's reversal exchange), each with the terminal's intermediate status carrying time-out byte 00 / absent / 99 / 02 / status ff; stalls in the handshake of a forced reconnect; connect() never completing / refused; read_card_timeout 0..=255 exhaustively incl. a terminal answering t+1 s after its ack; every stall again with max transactions 7 / 100 000 / usize::MAX; proptest-sampled configurations (password, currency, amount, terminal id, max transactions incl. 2^32 and usize::MAX) x stalls. Oracle: under a one-virtual-day watchdog the call returns, without panic, within S(op)*20*3*(T+2) virtual seconds, and a timeout inside the configured window does not abandon the exchange. non-trivial = stall inside a handshake or at a reply position >= 1, or read_card_timeout in {0,253,254,255}; distinct by scenario",
         &["time is tokio's paused clock: 'does not return' is decided in virtual time, never by wall clock", "a terminal that keeps sending a packet every 59 s forever is not a stall in the property's sense and is not generated", "in-memory duplex streams; only the current_thread runtime is explored (Feig is driven through &mut self and spawns nothing)"],
         false,
     )
